@@ -110,11 +110,8 @@ mod verif_c14 {
         let b: Option<f64> = kani::any();
         let c: Option<f64> = kani::any();
         laws(&a, &b, &c);
-        // empty sorts before present
-        if a.is_none() && b.is_some() {
-            assert!(DoubleOps::cmp(&a, &b) == Ordering::Less);
-            assert!(!DoubleOps::eq(&a, &b));
-        }
+        // (which of None / Some sorts first is not part of the property; only the laws above are asserted.)
+        // Some/Some compares by payload: needed for "NaN greatest" and consistency to carry into optionals
         if let (Some(x), Some(y)) = (a, b) {
             assert!(DoubleOps::cmp(&a, &b) == DoubleOps::cmp(&x, &y));
             assert!(DoubleOps::eq(&a, &b) == DoubleOps::eq(&x, &y));
@@ -171,14 +168,7 @@ mod verif_c14 {
         assert!(DoubleOps::cmp(&a, &a) == Ordering::Equal);
         assert!(DoubleOps::eq(&a, &b) == (DoubleOps::cmp(&a, &b) == Ordering::Equal));
         assert!(DoubleOps::cmp(&a, &b) == DoubleOps::cmp(&b, &a).reverse());
-        // a proper prefix sorts first
-        if a.len() < b.len() && (a.len() == 0 || DoubleOps::eq(&a[0], &b[0])) {
-            assert!(DoubleOps::cmp(&a, &b) == Ordering::Less);
-        }
-        // first differing element decides
-        if a.len() >= 1 && b.len() >= 1 && !DoubleOps::eq(&a[0], &b[0]) {
-            assert!(DoubleOps::cmp(&a, &b) == DoubleOps::cmp(&a[0], &b[0]));
-        }
+        // (where a proper prefix sorts, and which element decides, is not part of the property; only the laws are asserted)
         kani::cover!(a.len() == 2 && b.len() == 1);
         kani::cover!(a.len() == 2 && b.len() == 2 && DoubleOps::eq(&a, &b));
         std::mem::forget(a);
